@@ -8,6 +8,7 @@ ways the REAL decoders are run on a body cut into given pieces:
 
 Recorded events (one per decoder call):
   {e: piece, n, out: [bytes], outn, err, mode}     {e: flush, out, outn, err}
+and one final event for the call as a whole (decoder run / read_body): {e: end, err, total: [bytes written]}
 """
 import io
 import types
@@ -220,6 +221,13 @@ def new_decoder(dec):
 
 def run_class(dec, data, pieces):
     """The decompressor class itself (no decoder for 'none': nothing to run)."""
+    ev = _run_class(dec, data, pieces)
+    err = ev[-1]['err'] if ev else 'none'
+    ev.append({'e': 'end', 'out': [], 'outn': 0, 'err': err, 'total': [b for e in ev for b in e['out']]})
+    return ev
+
+
+def _run_class(dec, data, pieces):
     proxy = _ZlibProxy()
     saved = wpull.decompression.zlib
     wpull.decompression.zlib = proxy
@@ -335,7 +343,12 @@ def run_stream(dec, data, pieces, strategy='length'):
         if exc is not None:
             ev = ev[:max(len(writes), 0) + 1]
             ev[-1] = dict(ev[-1], out=[], outn=0, err=_errclass(exc) if exc != 'hang' else 'other:hang')
-    elif exc is not None and (not ev or ev[-1]['err'] == 'none'):
-        # the exchange failed outside the decoder calls (harness or transport): make it visible
-        ev.append({'e': 'flush', 'out': [], 'outn': 0, 'err': ('other:hang' if exc == 'hang' else 'other:' + type(exc).__name__)})
+    # the call as a whole: how read_body ended and what it wrote to the file
+    if exc is None:
+        end_err = 'none'
+    elif ev and ev[-1]['err'] != 'none':
+        end_err = ev[-1]['err']
+    else:
+        end_err = 'other:hang' if exc == 'hang' else _errclass(exc)
+    ev.append({'e': 'end', 'out': [], 'outn': 0, 'err': end_err, 'total': list(sink.getvalue())})
     return ev, sink.getvalue(), delivered
